@@ -37,6 +37,10 @@ func (b *Batcher) Accept(ctx context.Context, logs ...LogWithLedger) ([]error, e
 	}
 
 	for ind, operation := range operations {
+		if operation == nil {
+			// The log was not handed to the batcher (its error is already recorded)
+			continue
+		}
 		if _, err := operation.Wait(ctx); err != nil {
 			itemsErrors[ind] = fmt.Errorf("failure while waiting for operation completion: %w", err)
 			continue
